@@ -16,8 +16,9 @@ line was handed over; concurrent requests never mix.
    * gz configuration: the three-step sequence good gzip request, gzip request with a bad header (Reset of the pooled
      reader fails), two overlapping gzip requests; the pooled *gzip.Reader objects have identity and an owner
      (PoolHoldsEachObjectOnce, ReaderIsMine);
-   * gzone / mes configurations: one request x its compressed size (Content-Length), one request x the pipeline's
-     max_event_size: neither changes what is handed over (M_GzipStreamUnbounded, M_CarryUnbounded);
+   * gzone / mes / hdr configurations: one request x its compressed size (Content-Length), x the pipeline's
+     max_event_size, x Content-Type and the plugin's meta option: none of them changes what is handed over
+     (M_GzipStreamUnbounded, M_CarryUnbounded, M_BodyOnlyReadByBulk);
    * spec mutants (carry-over dropped, final flush missing / unconditional, pooled buffer not re-sliced,
      status before the flush, source id released early, buffers put back before the last In, io.ErrUnexpectedEOF
      taken for the end of the body, gzip reader put twice, decompressed stream limited by Content-Length, carry-over
@@ -111,7 +112,14 @@ def build_cases(ctx, exported):
         gz = 1 if rng.random() < 0.4 else 0
         lines.append({"fam": "long", "id": nid, "reqs": c["reqs"], "scale": rng.choice(scales),
                       "unlim": rng.random() < 0.5, "gz": gz, "trunc": bool(gz and rng.random() < 0.4),
-                      "mes": rng.choice([0, 0, 1, 2, 3, 4])})
+                      "mes": rng.choice([0, 0, 1, 2, 3, 4]), "ctype": rng.choice([0, 0, 1, 2, 3, 4, 4, 5])})
+        nid += 1
+    # ---- over a real TCP connection to a real net/http server in front of a plugin WITH the meta option, every
+    #      Content-Type, with Content-Length or chunked, plain and gzip
+    clean = [c["reqs"][0] for c in exported if len(c["reqs"]) == 1 and c["reqs"][0]["end"] in ("with", "after")]
+    for i in range(400 if quick else 4000):
+        lines.append({"fam": "srv", "id": nid, "reqs": [rng.choice(clean)], "ctype": 1 + (i // 2) % 5, "gz": (i // 10) % 2,
+                      "scale": rng.choice([1, 1, 7, 300, 9000])})
         nid += 1
     # ---- compressibility and Content-Length: gzip requests WITH a Content-Length whose highly repetitive body inflates
     #      about 50 / 99 / 100 / 101 / 150 / 300 / 1000 times (0: as much as it gets), one member and multi-member
@@ -261,6 +269,12 @@ def run(ctx):
                overrides={"MaxLen": "4" if quick else "5"})
         r = expect_rejected(c, "HttpChunk_mesobs.cfg", "carry_capped(LinesExact only)", by=("LinesExact",))
         side["killed"].append("carry_capped->%s" % r.violated)
+        # Content-Type x meta option: what is handed over depends on the body bytes alone (M_BodyOnlyReadByBulk)
+        tlc_ok(c, "HttpChunk", "HttpChunk_hdr.cfg", timeout=300, deadlock=False, seed=ctx.seed, workers=8,
+               overrides={"MaxLen": "3" if quick else "4"})
+        r = expect_rejected(c, "HttpChunk_hdr.cfg", "meta_drains_form", {"Mutant": '"meta_drains_form"'},
+                            by=("LinesExact", "OKOnlyAfterAllLines"))
+        side["killed"].append("meta_drains_form->%s" % r.violated)
 
     lanes = []
     if not ctx.replay:
@@ -339,6 +353,8 @@ def evaluate(ctx, r, lines, n_exported, killed, conc):
         if min(st["requests_with_over_limit_line_crossing_a_read_boundary"], st["requests_with_max_event_size_equal_to_their_longest_line"],
                st["requests_with_max_event_size_above_their_longest_line"]) == 0:
             raise vlib.Infra("max_event_size below / equal to / above the longest line was not exercised")
+        if min(st["requests_with_meta_and_urlencoded_content_type"], st["requests_through_real_http_server_urlencoded"]) == 0:
+            raise vlib.Infra("plugins with the meta option / urlencoded Content-Type / the real HTTP server were not exercised")
         if st["gate_pool_handover_probe_hits"] == 0:
             raise vlib.Infra("a sync.Pool Put made inside the blocked In never reached the Get of the request served meanwhile")
 
@@ -367,7 +383,9 @@ def evaluate(ctx, r, lines, n_exported, killed, conc):
     ctx.rule = ("case = 1-2 successive requests, each (body over {a,\\r,\\n} up to the length bound, split of the body "
                 "into reads, end flavour (n,EOF)|(n,nil)+(0,EOF)|(0,err)|(0,ErrUnexpectedEOF)|(n,ErrUnexpectedEOF), optional (0,nil) reads), enumerated exhaustively by "
                 "TLC (%d cases); ALL of them replayed on the real plugin (Start address=off, ServeHTTP) plain, gzip and gzip with the payload cut short (header / deflate data / trailer), "
-                "and again under a pipeline with max_event_size below / equal to / above the longest line (%d requests), plus "
+                "and again under a pipeline with max_event_size below / equal to / above the longest line (%d requests), and through "
+                "a plugin WITH the meta option with every Content-Type and a URL query (%d requests; %d more over a real TCP "
+                "connection to a net/http server), plus "
                 "%d gzip requests WITH a Content-Length and a highly repetitive body (ratios 50..1000, up to %d bytes, max ratio %d), "
                 "%d seeded long-line derivations (symbols blown up to runs around the real read-buffer size) and %d seeded "
                 "concurrent rounds (2/4/8 parallel requests over disjoint alphabets, half of them with a rendezvous inside "
@@ -375,7 +393,8 @@ def evaluate(ctx, r, lines, n_exported, killed, conc):
                 "the bytes are copied while request B with a line split over two reads is served; GOMAXPROCS 1 and default; %d of them are gzip sequences: good gzip request, request with a bad gzip header, "
                 "then two overlapping gzip requests, GC off, with a white-box look that the pool holds no *gzip.Reader twice). "
                 "Non-trivial = serial cases in which a line crosses a read boundary (counted by the harness)."
-                % (n_exported, st["requests_with_max_event_size_set"], st["ratio_requests_with_content_length"], st["ratio_decompressed_bytes_max"], st["ratio_max"], st["long_cases"], st["conc_cases"], st["gate_cases"], st["gzseq_runs"] // 2))
+                % (n_exported, st["requests_with_max_event_size_set"], st["requests_through_plugin_with_meta_option"],
+                   st["requests_through_real_http_server"], st["ratio_requests_with_content_length"], st["ratio_decompressed_bytes_max"], st["ratio_max"], st["long_cases"], st["conc_cases"], st["gate_cases"], st["gzseq_runs"] // 2))
     for c in lines[:2] + [c for c in lines if c["fam"] == "long"][:1] + [c for c in lines if c["fam"] == "conc"][:1]:
         ctx.sample(c)
     ctx.assumptions += [
